@@ -44,7 +44,7 @@ func serverObs(e *srv.Echo, b []byte, cuts []int) string {
 	obs, res, _ := e.Run(sconn.Split(b, cuts), sconn.EOF)
 	var sb strings.Builder
 	for i, o := range obs {
-		fmt.Fprintf(&sb, "[%d] %s %s %s hdr=%q body(%d)=%q err=%q tr=%q\n", i, o.Method, o.URI, o.Proto, o.Headers, len(o.Body), o.Body, o.BodyErr, o.Trailers)
+		fmt.Fprintf(&sb, "[%d] %s %s %s hdr=%q body(%d)=%q err=%q tr=%q\n", i, o.Method, o.URI, o.Proto, o.Headers, len(o.Body), o.Body, cli.ErrClass(o.BodyErr), o.Trailers) // the error text embeds a dump of the read buffer, which legitimately depends on the segmentation: compare its class
 	}
 	fmt.Fprintf(&sb, "closed=%v panic=%v\noutput=%q", res.Closed, res.Panic != nil, wire.MaskDate(res.Output))
 	return sb.String()
